@@ -336,7 +336,7 @@ class PTable(EngineBase):
               0, "yielded": [], "iters": [], "open_gens": [], "keys": set(),
               "probes": {}, "flagged": {}, "last_complete": None,
               "cleared": False, "all_yielded_ids": {}, "sample": [],
-              "obj_inc": {}, "pre_clear": {}}
+              "obj_inc": {}, "pre_clear": {}, "pid_hist": {}}
         inside = {}
         for e in plan.get("inside") or []:
             inside.setdefault(e["op_id"], []).append(e)
@@ -350,6 +350,12 @@ class PTable(EngineBase):
             kind = op["op"]
             if kind == "ev":
                 ev = op["ev"]
+                if "pid" in ev:
+                    st["pid_hist"].setdefault(ev["pid"], []).append(
+                        ev["ev"] + ("Z" if ev.get("as_zombie") else ""))
+                elif ev["ev"] == "clock_step":
+                    for hl in st["pid_hist"].values():
+                        hl.append("step")
                 k.apply_event(ev)
                 if ev["ev"] == "clock_step":
                     st["steps"] += 1
@@ -359,6 +365,9 @@ class PTable(EngineBase):
                 ev = e["ev"]
                 if ev["ev"] == "clock_step":
                     continue
+                if "pid" in ev:
+                    st["pid_hist"].setdefault(ev["pid"], []).append(
+                        "in:" + ev["ev"])
                 k.schedule_at_procfs(0, idx, e["n"], ev)
             pre = k.snapshot()
             pre_version = k.version
@@ -697,11 +706,12 @@ class PTable(EngineBase):
                 self._V(st, "C01.exc_type", ["silent_on_absent"], api,
                         "%s returned although pid %d does not exist" % (
                             api, h.pid))
-        st["keys"].add("C01|%s|%s|%s|%s" % (
+        st["keys"].add("C01|%s|%s|%s|%s|%s" % (
             api, "recycled" if recycled else ("gone" if owner is None
                                               else "live"),
             "seen_gone" if h.seen_gone else "fresh",
-            out[0] if out[0] == "value" else exc_class(psutil, out[1])))
+            out[0] if out[0] == "value" else exc_class(psutil, out[1]),
+            ">".join(st["pid_hist"].get(h.pid, [])[-3:])))
         self._track_gone(psutil, st, op, out)
 
     @staticmethod
@@ -768,7 +778,9 @@ class PTable(EngineBase):
                 self._V(st, "C02.hash", ctags + ["unequal_collide"], "hash",
                         "different incarnations of pid %d hash alike" %
                         h1.pid)
-            st["keys"].add("C02|eq|%s|%s" % (want, ",".join(ctags)))
+            st["keys"].add("C02|eq|%s|%s|%s|%s" % (
+                want, ",".join(ctags), h1.pid == h2.pid,
+                ">".join(st["pid_hist"].get(h1.pid, [])[-3:])))
             if want and h1 is not h2 and h1.born_steps != h2.born_steps:
                 probe("same_process_across_clock_step")
             if not want and h1.pid == h2.pid:
@@ -813,8 +825,9 @@ class PTable(EngineBase):
                 h.running_false = True
             if not alive_pre and post.get(h.pid):
                 probe("is_running_on_recycled_pid")
-            st["keys"].add("C02|run|%s|%s|%s" % (alive_pre, alive_post,
-                                                 ",".join(tags)))
+            st["keys"].add("C02|run|%s|%s|%s|%s" % (
+                alive_pre, alive_post, ",".join(tags),
+                ">".join(st["pid_hist"].get(h.pid, [])[-3:])))
         if kind in ("get", "str", "boot_time", "iter") and out[0] == "exc":
             cls = exc_class(psutil, out[1])
             if cls not in ("NSP", "ZP", "AD"):
@@ -1153,9 +1166,10 @@ class PTable(EngineBase):
                         self._V(st, "C05.children_sound", tags + ["unrelated"],
                                 api, "pid %d never had a parent chain to %d"
                                 % (pid, h.pid))
-            st["keys"].add("C05|%s|%s|%d|%s" % (
+            st["keys"].add("C05|%s|%s|%d|%s|%s" % (
                 api, "moving" if moving else "quiet", len(got),
-                self._has_cycle(pre)))
+                self._has_cycle(pre),
+                ">".join(st["pid_hist"].get(h.pid, [])[-2:])))
         elif kind == "ppid":
             if not moving and out[1] != me[4]:
                 self._V(st, "C05.ppid", tags, api, "ppid() -> %r, kernel "
@@ -1302,9 +1316,10 @@ PTable.RULE = (
     "operations, kernel events between operations and just before the n-th "
     "procfs access inside operations); distinct+non-trivial = distinct "
     "abstract outcome keys (api x target state {live, gone, recycled} x "
-    "handle history x outcome class, resp. comparison class / iteration "
-    "shape / tree shape), counted only where the property's precondition "
-    "actually occurred")
+    "handle history x outcome class x the last three kernel events that "
+    "concerned that PID, resp. comparison class / iteration shape / tree "
+    "shape), counted only where the property's precondition actually "
+    "occurred")
 PTable.ASSUMPTIONS = [
     "a PID is never reused within the clock tick in which its previous owner "
     "started (psutil's documented 10 ms identity resolution)",
